@@ -1,5 +1,6 @@
 import MsqProofs.Props.C03RL
 import MsqProofs.Props.C03R3
+import MsqProofs.Props.C03RL2
 /-!
 # Why is a statement outside the fragments?  (run with `lake env lean --run MsqProofs/Tools/FragWhy.lean < lines`)
 
@@ -10,7 +11,7 @@ the payload (leaf) conditions, `printableAny` and the pre-pass condition.  The m
 `reasons = [] ↔ FragAny d s`, otherwise the answer carries `MISMATCH`.
 
 The verdict letter is that of Tools/FragCov.lean: `X` text level, `T` token level (`TR.FragAny`), `U` outside `TR.FragAny` but in the third
-fragment `TR3.FragAny` (Props/C03R3.lean), `-` outside all, `M` in `TR.FragAny` and outside the third (contradicts the unproved inclusion).
+fragment `TR3.FragAny` (Props/C03R3.lean), `-` outside all, `Y` text level by the weaker payload condition `leafAnyB2` only (Props/C03RL2.lean; reasons then name what `leafAnyB` rejects), `M` in `TR.FragAny` and outside the third (contradicts the unproved inclusion).
 The reasons always refer to the REGISTERED fragment `TR.FragAny`.
 
 Answer: `OK <kind>:<X|T|U|-|M>:<reason>|<reason>|… …` (reasons are `node.condition[=detail]`, blanks replaced by `_`).
@@ -277,7 +278,8 @@ def judge (d : Gen.D) (s : Stmt) : String :=
         FW.ck (LL2.Any.printableAny d s) "text.not-printable-in-dialect" ++ dedup (FW.leafWhy d s) ++
         (match PR.prStmt d s with | .ok _ => FW.ck pre "text.pre-pass-changes-printed-text" | .error _ => ["text.printer-refuses"]))
   let u := TR3.FragAny d s
-  kindOf s ++ ":" ++ (if t && !u then "M" else if x then "X" else if t then "T" else if u then "U" else "-") ++ ":" ++ ("|".intercalate (rs.map sane))
+  let y := t && LL2.Any.printableAny d s && C03.AnyText.leafAnyB2 d s && pre
+  kindOf s ++ ":" ++ (if t && !u then "M" else if x then "X" else if y then "Y" else if t then "T" else if u then "U" else "-") ++ ":" ++ ("|".intercalate (rs.map sane))
 
 def respond (line : String) : String :=
   match line.splitOn " " with
